@@ -98,7 +98,7 @@ func (c *Ctx) errgroupRule(keys ...string) {
 // value (an error return).
 func (c *Ctx) sideGoroutineErrors(want func(key string) bool) {
 	n := 0
-	for _, fn := range c.Funcs {
+	for _, fn := range c.subjects() {
 		if fn.Parent() != nil || !want(fnKey(fn)) {
 			continue
 		}
@@ -241,7 +241,7 @@ func unspill(r *ssa.Return, v ssa.Value) ssa.Value {
 // behind the true edge of Converters.equal(chunk.converters).
 func (c *Ctx) rawStorageGuarded() {
 	n := 0
-	for _, fn := range c.Funcs {
+	for _, fn := range c.subjects() {
 		k := fnKey(fn)
 		if strings.HasPrefix(k, "Chunk.") || k == "NewChunk" || k == "NewChunkWithID" || k == "NewChunkFromStorage" {
 			continue
@@ -308,7 +308,7 @@ type flagSpec struct {
 
 func (c *Ctx) flagDefaults(want map[string]flagSpec) {
 	found := map[string]int{}
-	for _, fn := range c.Funcs {
+	for _, fn := range c.subjects() {
 		if fn.Pkg != c.CmdSSA {
 			continue
 		}
